@@ -331,6 +331,27 @@ def rule_frame_stamped(res, rid, m):
             else:
                 why = "stamp %s: pre-incremented counter=%s, on the pushed frame=%s, after the push on every path=%s" % (canon(s), arg_ok, on_frame, after)
         res.check(ok, rid, "push:stamped", pb.get("loc"), "pushed frame is stamped with ++counter on every path", why)
+    # nobody else replaces a frame (or the list) as a whole: the counter stamped on it would be replaced with it
+    whole = [(ff, k, n) for ff, k, n in m.writes.get(m.frames, []) if k in ("call:operator=", "call:assign", "call:swap", "assign", "call:insert", "call:emplace")]
+    def empties_list(k, n):
+        # `frames = {}` / `frames = decltype(frames)()` / swap with a fresh local: the list as a whole is emptied, same as clear()
+        if not isinstance(n, dict) or k not in ("call:operator=", "assign"):
+            return False
+        tgt = strip_all_casts(n.get("obj") or n.get("l") or {})
+        src = (n.get("args") or [n.get("r")])[0]
+        src = strip_all_casts(src) if isinstance(src, dict) else {}
+        while src.get("k") in ("construct", "initlist", "temp", "bindtemp") and len(src.get("args", src.get("elems", [])) or []) == 1:
+            src = strip_all_casts((src.get("args") or src.get("elems"))[0])
+        return tgt.get("field") == m.frames and src.get("k") in ("construct", "initlist") and not (src.get("args") or src.get("elems"))
+    whole = [(ff, k, n) for ff, k, n in whole if not empties_list(k, n)]
+    for ff, k, n in whole:
+        res.bad(rid, "frame-replaced:%s" % ff.name.split("::")[-1], n.get("loc") if isinstance(n, dict) else ff.loc,
+                "%s replaces a frame of the list as a whole (%s): the sequence counter stamped on it when it was opened is replaced with it — the frame "
+                "goes out with whatever counter the assigned bytes hold (0 for the template), the counter value it had is skipped" %
+                (ff.name, k.replace("call:", "")))
+    if not whole:
+        res.ok(rid, "frames-only-pushed", f.loc, "frames enter the list through the opener's push only; no method replaces a frame or the list as a whole "
+               "(writers: %s)" % ", ".join(sorted({k for _, k, _ in m.writes.get(m.frames, [])})))
     # the pushed value is the template
     for pb in pushes:
         a = strip_all_casts(pb["args"][0]) if pb.get("args") else {}
@@ -1164,6 +1185,57 @@ def rule_free_count_writers(res, rid, m):
                   "free count reset to %d right after the frame was trimmed" % const_value(node["r"]) if trimmed else "free count reset together with clearing the frame list",
                   "%s sets the free-byte count to %d while the last frame may be open and untrimmed: the trim in the frame opener then keeps the frame at "
                   "its maximum size (zero padding beyond the minimum, messages no longer tile the frame)" % (f.name, const_value(node["r"])))
+    return n
+
+
+def rule_last_segment_closes_frame(res, rid, m):
+    """A last segment stays alone in its frame.  Structural part: on every path through the segmentation loop's body that is taken with the
+    flag equal to `lastSegment`, after the slice was placed either the free-byte count is set to the constant 0 (so the next message's
+    `free < sizeof(MessageHeader)` opens a frame) or a frame is opened unconditionally.  A count left at `size - used` after the trim is
+    the minimum-size padding counted as room: the next small message is written behind the last segment."""
+    f = m.putPacket
+    wr = {n["id"]: (k, n) for ff, k, n in m.writes.get(m.bytesLeft, []) if ff is f and isinstance(n, dict)}
+    n = 0
+    bad = None
+    for p in paths.enumerate_paths(f):
+        if not any(a[0] == "cmp" and a[2] == "==" and ("lastSegment" in a[1] or "lastSegment" in a[3]) for a in p.atoms):
+            continue
+        last = None
+        seenH = False
+        for _, x in p.elems():
+            if x.get("k") == "call":
+                g = m.fb.resolve_call(x)
+                if g is m.header_writer:
+                    seenH = True
+                    last = None
+                elif g is not None and g.rec == ENC and (g is m.opener or m.may_open(g)) and seenH:
+                    last = ("open", x, m.must_open(g) if g is not m.opener else True)
+                elif g is not None and g.rec == ENC and seenH and any(ff is g for ff, _, _ in m.writes.get(m.bytesLeft, [])):
+                    ws = [(k, nn) for ff, k, nn in m.writes.get(m.bytesLeft, []) if ff is g]
+                    last = ("helper", x, all(k == "assign" and const_value(nn["r"]) == 0 for k, nn in ws))
+            if x.get("id") in wr and seenH:
+                last = ("write",) + wr[x["id"]]
+        if not seenH:
+            continue
+        n += 1
+        ok = last is not None and ((last[0] == "write" and last[1] == "assign" and const_value(last[2]["r"]) == 0) or
+                                   (last[0] in ("open", "helper") and last[2]))
+        if not ok and bad is None:
+            bad = last
+    if n == 0:
+        res.bad(rid, "last-segment-closes-frame", f.loc, "%s never distinguishes the last segment of a packet: its frame stays open and the next message "
+                "that fits is written behind it" % f.name)
+        return 1
+    if bad is None and n:
+        res.ok(rid, "last-segment-closes-frame", f.loc, "%d paths taken with the flag == lastSegment: each ends with the free-byte count set to 0 (or a frame "
+               "opened) after the slice was placed" % n)
+    else:
+        node = bad[2] if bad and bad[0] == "write" else (bad[1] if bad else None)
+        res.bad(rid, "last-segment-closes-frame", (node or {}).get("loc") if isinstance(node, dict) else f.loc,
+                "after a last segment the free-byte count is %s: whatever it leaves counts as room in this frame (the zero padding up to the minimum "
+                "frame size included), so the next message that fits is written behind the last segment instead of into a new frame" %
+                ("left as the decrement made it" if bad is None or (bad[0] == "write" and bad[1] != "assign") else
+                 "set to `%s`, not to 0" % canon(bad[2]["r"]) if bad[0] == "write" else "left to %s, which does not always close the frame" % (callee_name(bad[1]) or "?")))
     return n
 
 
